@@ -155,6 +155,16 @@ func (in *interp) errDef(e *ErrDef) {
 }
 
 func (in *interp) errResp(er *ErrResp) {
+	if er.FuncCode {
+		dsl.Response(er.Name, func() {
+			dsl.Code(er.Code)
+			for _, h := range er.Headers {
+				dsl.Header(mapped(h))
+			}
+			in.body(er.Body)
+		})
+		return
+	}
 	if len(er.Headers) == 0 && er.Body == nil {
 		dsl.Response(er.Name, er.Code)
 		return
